@@ -7,7 +7,7 @@ CONSTANTS
  MaxOps = 4
  OpTags = {"t1", "t2"}
  OpMans = {"m1", "m2"}
- OpKinds <- MutOnly
+ OpKinds <- MutGc
  UseMutex = TRUE
  FreshPH = TRUE
 INIT SInit
